@@ -135,7 +135,23 @@ impl CaseInput for RevokeCase {
         }
         macro_rules! go {
             ($client:expr, $tok:expr) => {{
+                // the OTHER endpoints of the client share the revocation URL's scheme, host and port (a sibling path): an
+                // exemption keyed on "same origin as the token endpoint" or "the client already uses this scheme" would show
+                let sibling = |leaf: &str| -> Option<String> {
+                    let mut u = url::Url::parse(&self.url).ok()?;
+                    if u.cannot_be_a_base() {
+                        return None;
+                    }
+                    u.set_path(&format!("/{leaf}"));
+                    u.set_query(None);
+                    u.set_fragment(None);
+                    Some(u.to_string())
+                };
                 let base = $client.set_client_secret(ClientSecret::new("s".into()));
+                let base = match (self.token.len() % 2 == 0, sibling("token").and_then(|s| TokenUrl::new(s).ok()), sibling("auth").and_then(|s| AuthUrl::new(s).ok())) {
+                    (true, Some(tu), Some(au)) => base.set_token_uri_option(Some(tu)).set_auth_uri_option(Some(au)),
+                    _ => base.set_token_uri_option(None).set_auth_uri_option(None),
+                };
                 let res = match self.ep {
                     0 => {
                         let c = base.set_revocation_url(rurl.clone());
